@@ -225,6 +225,10 @@ pub fn install(env_seed: u64) {
         std::process::exit(2);
     }
     rbx_types::verif::install_hooks(&HOOKS);
+    // One-time initialisations (the intern table, the reflection database)
+    // happen here, not inside the first simulated run of the process.
+    drop(rbx_types::SharedString::new(b"rbxsim warm-up".to_vec()));
+    let _ = rbx_reflection_database::get();
 }
 
 static CUR_RUN_SEED: AtomicU64 = AtomicU64::new(0);
@@ -238,6 +242,7 @@ pub fn rewind() {
 /// Puts every seam into the state derived from `run_seed`.
 pub fn begin_run(run_seed: u64) {
     CUR_RUN_SEED.store(run_seed, Ordering::Relaxed);
+    flush_reuse_cache();
     reset_map_seed(run_seed);
     reset_ref_stream(run_seed);
     reset_uid_env(run_seed, ClockFault::Tick, RngFault::Seeded);
@@ -256,6 +261,116 @@ static MAXREQ: AtomicUsize = AtomicUsize::new(0);
 /// instead of taking the machine down.
 pub const ALLOC_REFUSE: usize = 8 << 30;
 
+// Address reuse seam. For simulated threads, small blocks are recycled through
+// a LIFO cache per 16-byte size class that is emptied at the start of every
+// run. Which earlier-freed block a later allocation receives is then a
+// function of the run's (deterministic) allocation order alone, so bugs that
+// depend on an address being re-used (ABA) replay exactly - and, because reuse
+// is immediate, are found sooner than with the system allocator's per-thread
+// caches. All small blocks, from any thread, are rounded up to their class
+// size so that a block can be handed to any request of its class.
+const SMALL_MAX: usize = 256;
+const CLASS_STEP: usize = 16;
+const N_CLASSES: usize = SMALL_MAX / CLASS_STEP;
+const CACHE_DEPTH: usize = 8;
+
+struct ReuseCache {
+    locked: AtomicBool,
+    count: [AtomicUsize; N_CLASSES],
+    slots: [[AtomicUsize; CACHE_DEPTH]; N_CLASSES],
+}
+
+#[allow(clippy::declare_interior_mutable_const)]
+const ZERO: AtomicUsize = AtomicUsize::new(0);
+#[allow(clippy::declare_interior_mutable_const)]
+const ZERO_ROW: [AtomicUsize; CACHE_DEPTH] = [ZERO; CACHE_DEPTH];
+
+static REUSE: ReuseCache = ReuseCache {
+    locked: AtomicBool::new(false),
+    count: [ZERO; N_CLASSES],
+    slots: [ZERO_ROW; N_CLASSES],
+};
+
+static REUSE_HITS: AtomicU64 = AtomicU64::new(0);
+
+thread_local! {
+    static SIM_THREAD: std::cell::Cell<bool> = const { std::cell::Cell::new(false) };
+}
+
+/// Marks the calling thread as a simulated thread (its small allocations go
+/// through the reuse cache).
+pub fn set_sim_thread(on: bool) {
+    SIM_THREAD.with(|c| c.set(on));
+}
+
+#[inline]
+fn is_sim_thread() -> bool {
+    SIM_THREAD.try_with(|c| c.get()).unwrap_or(false)
+}
+
+#[inline]
+fn class_of(size: usize) -> usize {
+    (size.max(1) + CLASS_STEP - 1) / CLASS_STEP - 1
+}
+
+#[inline]
+fn class_layout(class: usize) -> Layout {
+    unsafe { Layout::from_size_align_unchecked((class + 1) * CLASS_STEP, 16) }
+}
+
+impl ReuseCache {
+    #[inline]
+    fn lock(&self) {
+        while self.locked.compare_exchange_weak(false, true, Ordering::Acquire, Ordering::Relaxed).is_err() {
+            std::hint::spin_loop();
+        }
+    }
+    #[inline]
+    fn unlock(&self) {
+        self.locked.store(false, Ordering::Release);
+    }
+    fn pop(&self, class: usize) -> *mut u8 {
+        self.lock();
+        let n = self.count[class].load(Ordering::Relaxed);
+        let p = if n > 0 {
+            self.count[class].store(n - 1, Ordering::Relaxed);
+            self.slots[class][n - 1].load(Ordering::Relaxed) as *mut u8
+        } else {
+            std::ptr::null_mut()
+        };
+        self.unlock();
+        p
+    }
+    fn push(&self, class: usize, p: *mut u8) -> bool {
+        self.lock();
+        let n = self.count[class].load(Ordering::Relaxed);
+        let ok = n < CACHE_DEPTH;
+        if ok {
+            self.slots[class][n].store(p as usize, Ordering::Relaxed);
+            self.count[class].store(n + 1, Ordering::Relaxed);
+        }
+        self.unlock();
+        ok
+    }
+}
+
+/// Empties the reuse cache (start of a run).
+pub fn flush_reuse_cache() {
+    for class in 0..N_CLASSES {
+        loop {
+            let p = REUSE.pop(class);
+            if p.is_null() {
+                break;
+            }
+            unsafe { System.dealloc(p, class_layout(class)) };
+        }
+    }
+}
+
+pub fn reuse_hits() -> u64 {
+    REUSE_HITS.load(Ordering::Relaxed)
+}
+
 unsafe impl GlobalAlloc for CountingAlloc {
     unsafe fn alloc(&self, layout: Layout) -> *mut u8 {
         let size = layout.size();
@@ -263,7 +378,22 @@ unsafe impl GlobalAlloc for CountingAlloc {
             refuse(size);
             return std::ptr::null_mut();
         }
-        let p = System.alloc(layout);
+        let p = if size <= SMALL_MAX && layout.align() <= 16 {
+            let class = class_of(size);
+            let mut p = std::ptr::null_mut();
+            if is_sim_thread() {
+                p = REUSE.pop(class);
+                if !p.is_null() {
+                    REUSE_HITS.fetch_add(1, Ordering::Relaxed);
+                }
+            }
+            if p.is_null() {
+                p = System.alloc(class_layout(class));
+            }
+            p
+        } else {
+            System.alloc(layout)
+        };
         if !p.is_null() {
             account(size);
         }
@@ -272,11 +402,26 @@ unsafe impl GlobalAlloc for CountingAlloc {
 
     unsafe fn dealloc(&self, ptr: *mut u8, layout: Layout) {
         LIVE.fetch_sub(layout.size(), Ordering::Relaxed);
-        System.dealloc(ptr, layout)
+        if layout.size() <= SMALL_MAX && layout.align() <= 16 {
+            let class = class_of(layout.size());
+            if is_sim_thread() && REUSE.push(class, ptr) {
+                return;
+            }
+            System.dealloc(ptr, class_layout(class));
+        } else {
+            System.dealloc(ptr, layout)
+        }
     }
 
     unsafe fn alloc_zeroed(&self, layout: Layout) -> *mut u8 {
         let size = layout.size();
+        if size <= SMALL_MAX && layout.align() <= 16 {
+            let p = self.alloc(layout);
+            if !p.is_null() {
+                std::ptr::write_bytes(p, 0, size);
+            }
+            return p;
+        }
         if size >= ALLOC_REFUSE {
             refuse(size);
             return std::ptr::null_mut();
@@ -292,6 +437,18 @@ unsafe impl GlobalAlloc for CountingAlloc {
         if new_size >= ALLOC_REFUSE {
             refuse(new_size);
             return std::ptr::null_mut();
+        }
+        let small_old = layout.size() <= SMALL_MAX && layout.align() <= 16;
+        let small_new = new_size <= SMALL_MAX && layout.align() <= 16;
+        if small_old || small_new {
+            // Blocks of the small classes are managed by us: move by hand.
+            let new_layout = Layout::from_size_align_unchecked(new_size, layout.align());
+            let np = self.alloc(new_layout);
+            if !np.is_null() {
+                std::ptr::copy_nonoverlapping(ptr, np, layout.size().min(new_size));
+                self.dealloc(ptr, layout);
+            }
+            return np;
         }
         let p = System.realloc(ptr, layout, new_size);
         if !p.is_null() {
